@@ -108,13 +108,15 @@ def _snippet_cases():
     ints = [-1, 0, 1, 2, 5]
     dicts = [{}, {1: 5}, {1: 5, 2: 6}]
     sets = [set(), {1}, {1, 2}]
-    L, I, D, S = "list", "int", "dict", "set"
+    L, I, D, S, T = "list", "int", "dict", "set", "str"
+    strs = ["", "a", "a/b", "a/a/b", "ab"]
     sig = {"neg_load": (L,), "neg_load2": (L,), "neg_store": (L, I), "neg_del": (L,), "idx_load": (L, I), "idx_store": (L, I, I), "idx_del": (L, I), "guarded_last": (L, I), "guarded_or": (L, I),
            "append_then_last": (L, I), "chain": (I, I, I), "tern": (I, I), "aug": (I, I), "bool_or": (I, I), "bool_and": (I, I), "not_in": (L, I), "is_none": (I,), "swap": (I, I), "nested_if": (I, I),
            "try_index": (L, I), "try_finally": (L, I), "dict_get": (D, I), "dict_sub": (D, I), "dict_try": (D, I), "dict_pop": (D, I), "dict_pop_default": (D, I), "dict_del": (D, I), "dict_store": (D, I, I),
            "set_ops": (S, I), "set_remove": (S, I), "try_else": (D, I), "nested_try": (D, L, I), "or_value": (I, I), "and_chain_value": (I, I, I), "early_return": (L, I), "cmp_mix": (I, I),
-           "calls_helper": (L, I), "unpack_pair": (I, I), "while_free_swap_store": (L,)}
-    dom = {L: lists, I: ints, D: dicts, S: sets}
+           "calls_helper": (L, I), "unpack_pair": (I, I), "while_free_swap_store": (L,),
+           "str_prefix": (T, T), "str_replace_once": (T, T, T), "str_eq_chain": (T, T), "str_len_slice": (T,), "str_guard": (T, T)}
+    dom = {L: lists, I: ints, D: dicts, S: sets, T: strs}
     for name, kinds in sig.items():
         for args in itertools.product(*[dom[k] for k in kinds]):
             if kinds.count(I) == 3 and len({abs(a) for a in args}) > 2 and name == "chain" and args[0] > 2:
@@ -129,6 +131,10 @@ def _sym_arg(ex, kind, val, hint):
         t = ex.fresh_term(z3.IntSort(), hint)
         ex.assume(t == val)
         return VInt(t)
+    if kind == "str":
+        t = ex.fresh_term(z3.StringSort(), hint)
+        ex.assume(t == z3.StringVal(val))
+        return VStr(t, "str")
     if kind == "list":
         n, arr = ex.fresh_term(z3.IntSort(), hint + "n"), ex.fresh_term(z3.ArraySort(z3.IntSort(), z3.IntSort()), hint + "a")
         ex.assume(n == len(val))
@@ -174,6 +180,10 @@ def _concretize(v, m, pc):
         raise Unsupported(f"truth value undetermined by the pinned input: {verdicts}")
     if isinstance(v, VInt):
         return ev(v.t).as_long()
+    if isinstance(v, VStr):
+        return ev(v.t).as_string()
+    if isinstance(v, str):
+        return v
     if isinstance(v, VOpt):
         return _concretize(v.val, m, pc) if z3.is_true(ev(v.some)) else None
     if isinstance(v, VTuple):
